@@ -207,10 +207,11 @@ Definition part_check (ballots : list (list N)) (parts : list (list N)) : bool :
   forallb (fun b => existsb (fun s => set_eq s b) parts) ballots &&
   forallb (fun s => existsb (fun b => set_eq s b) ballots) parts &&
   pairwise (fun s t => negb (set_eq s t) && negb (meets s t)) parts.
-(* 2PART: a partition witness with one part, or with two parts that together cover all alternatives *)
+(* 2PART: a partition witness with at most one part (no part: a profile without ballots), or with two parts that
+   together cover all alternatives *)
 Definition part2_check (alts : list N) (ballots : list (list N)) (parts : list (list N)) : bool :=
   part_check ballots parts &&
-  ((length parts =? 1) || ((length parts =? 2) && set_eq (concat parts) alts)).
+  ((length parts <=? 1) || ((length parts =? 2) && set_eq (concat parts) alts)).
 
 (* ------------------------------------------------------------------------------------------------ *)
 (* (R) reference deciders by enumeration *)
@@ -232,13 +233,14 @@ Definition de_decide (alts : list N) (ballots : list (list N)) : bool :=
 (* PART: any two approval sets are equal or disjoint *)
 Definition part_decide (ballots : list (list N)) : bool :=
   forallb (fun b1 => forallb (fun b2 => set_eq b1 b2 || negb (meets b1 b2)) ballots) ballots.
-(* 2PART: any two approval sets are equal or disjoint, there is at least one ballot, every approval set equals
-   the first one (s) or one other (t), and if s and t differ they cover all the alternatives.
-   (is_2_part answers False on a profile without any ballot, i.e. with zero distinct approval sets.) *)
+(* 2PART (the reading of the property text: AT MOST two distinct approval sets): any two approval sets are equal
+   or disjoint, every approval set equals the first one (s) or one other (t), and if s and t differ they cover all
+   the alternatives.  A profile without ballots has zero distinct approval sets and is a 2-partition in this
+   reading; is_2_part answers False on it (two_part_no_ballots_refuted). *)
 Definition part2_decide (alts : list N) (ballots : list (list N)) : bool :=
   part_decide ballots &&
   match ballots with
-  | [] => false
+  | [] => true
   | s :: _ =>
       existsb (fun t => forallb (fun b => set_eq b s || set_eq b t) ballots &&
                         (set_eq s t || set_eq (s ++ t) alts)) ballots
